@@ -190,6 +190,25 @@ func (in *c13Inst) Apply(op vx.Op) (got, want string) {
 			}
 		}
 		return fmt.Sprint(err) + " | " + in.storageString(), "<nil> | " + in.modelString()
+	case "Reopen":
+		// a clean restart of the holder in the middle of the history: the fragments are loaded from
+		// disk by the start-up path instead of being created by the write path
+		h := in.n.srv.holder
+		if err := h.Close(); err != nil {
+			return "close: " + err.Error(), "<nil>"
+		}
+		if err := h.Open(); err != nil {
+			return "open: " + err.Error(), "<nil>"
+		}
+		in.n.idx = h.Index("i")
+		if in.n.idx == nil {
+			return "index i is gone after reopen", "index i"
+		}
+		in.f = in.n.idx.Field("f")
+		if in.f == nil {
+			return "field f is gone after reopen", "field f"
+		}
+		return "<nil> | " + in.storageString(), "<nil> | " + in.modelString()
 	case "rRow":
 		// PQL Row(f=r) for every row: columns per row
 		var g, w strings.Builder
@@ -338,6 +357,7 @@ func c13Alphabet(cf *c13Cfg, batches [][]c13Pair, importLen, clearLen int) []vx.
 	for ri := range cf.rows {
 		a = append(a, vx.O("ClearRow", int64(ri)))
 	}
+	a = append(a, vx.O("Reopen"))
 	return a
 }
 
@@ -360,6 +380,7 @@ func c13MiniAlphabet(cf *c13Cfg, batches [][]c13Pair) []vx.Op {
 	if cf.kind != "bool" {
 		a = append(a, vx.O("rRows"))
 	}
+	a = append(a, vx.O("Reopen"))
 	return a
 }
 
@@ -425,7 +446,7 @@ func c13TwoValues(got string) bool {
 
 func TestVerif_C13(t *testing.T) {
 	c := vx.NewCheck("C13", "model_checking",
-		"all operation sequences (Set, Clear, ClearRow, Import and Import-clear with every batch of length<=3 over 2 columns x 3 rows (2 rows for bool), reads Row()/Rows(column=)) on a real mutex / bool field of an in-process node: exhaustive DFS to the stated depths (depth 2 full alphabet, depth 3 reduced batches, depth 4/5 over a one-column mini alphabet), then state-merged BFS over (model, storage layout, row cache, rank cache); last-writer-wins model; distinct = distinct canonical end states")
+		"all operation sequences (Set, Clear, ClearRow, Import and Import-clear with every batch of length<=3 over 2 columns x 3 rows (2 rows for bool), reads Row()/Rows(column=), and a clean holder reopen) on a real mutex / bool field of an in-process node: exhaustive DFS to the stated depths (depth 2 full alphabet, depth 3 reduced batches, depth 4/5 over a one-column mini alphabet), then state-merged BFS over (model, storage layout, row cache, rank cache); last-writer-wins model; distinct = distinct canonical end states")
 	var nodesMu sync.Mutex
 	var nodes []*c13Node
 	pool := &sync.Pool{New: func() interface{} {
